@@ -352,30 +352,29 @@ class LiteralMethod(DeserializationMethod):
     coercer: Optional[Coercer]
     types: Tuple[type, ...]
 
+    def _get(self, data: Any) -> Any:
+        data_cls: type = data.__class__
+        try:
+            return self.value_map[data_cls, data]
+        except KeyError:
+            # instances of subclasses are accepted as for primitive types (e.g. a member
+            # of a str/int Enum, as emitted by serialization), but not an equal value of
+            # another class (True for 1, 1.0 for 1)
+            if data_cls is not bool:
+                for cls in self.types:
+                    if isinstance(data, cls) and (cls, data) in self.value_map:
+                        return self.value_map[cls, data]
+            raise
+
     def deserialize(self, data: Any) -> Any:
         try:
-            value = self.value_map[data]
-            data_cls: type = data.__class__
-            # instances of subclasses are accepted as for primitive types (e.g. a member
-            # of a str/int Enum, as emitted by serialization), but not a hash-equal
-            # value of another class (True for 1, 1.0 for 1)
-            if data_cls in self.types or (
-                data_cls is not bool and isinstance(data, self.types)
-            ):
-                return value
-            raise KeyError(data)
+            return self._get(data)
         except KeyError:
             if self.coercer is not None:
                 for cls in self.types:
                     try:
-                        coerced = self.coercer(cls, data)
-                        # True is an instance of int but must not match 1
-                        if coerced.__class__ in self.types or (
-                            coerced.__class__ is not bool
-                            and isinstance(coerced, self.types)
-                        ):
-                            return self.value_map[coerced]
-                    except (KeyError, ValidationError):
+                        return self._get(self.coercer(cls, data))
+                    except (KeyError, TypeError, ValidationError):
                         pass
             raise ValidationError(format_error(self.error, data))
         except TypeError:
